@@ -52,7 +52,7 @@ MANIFEST = dict(
        "cholUpdate_diag_pos proves validity of the returned factor, not that L'L'^T equals alpha*LL^T+beta*vv^T; simplex rank invariance and CEM/simplex convergence are oracle-only; the noise-handling branch of CMA::step (function.isNoisy()) is outside the property (deterministic objective); "
        "ElitistSelection uses std::sort (unstable beyond 16 elements): generations with tied fitness among more than 16 offspring are counted, not compared; convergence on the sphere is numerical (value <= 1e-10 within the budget; CEM: 1e-6 and dimension 1 only, because the noise-free cross-entropy method with 10 of 100 parents converges prematurely in higher dimension: n=5, seed 862289 stalls at 3.6e-3; n=2, seed 680299 from (3, 2.5) stalls at 1.1e-2, about 1 run in 400). "
        "That a run with a private generator does not depend on random::globalRng, and the equivalence of per-run state after init of a used object, have no model-level content (the models take the variates as inputs) and are decided by the oracle on the real code only. "
-       "Known findings on the unchanged tree (known_findings.json, findings_proposed/C11.md): F16 SimplexDownhill::init starts from the magic best value 1e100, so on objectives with values beyond 1e100 (the 2^340 rescaling) the reported pair is stale until a value below 1e100 is seen "
+       "Known findings on the unchanged tree (known_findings.json, findings_proposed/C11.md): F17 CMA with a population >= 10 n that has converged exactly keeps collapsing C until the stability clamp divides by zero (sigma = inf, then the eigensolver throws; thorough tier, corpus f17; no validated patch); F16 SimplexDownhill::init starts from the magic best value 1e100, so on objectives with values beyond 1e100 (the 2^340 rescaling) the reported pair is stale until a value below 1e100 is seen "
        "(patch C11-F16-simplex-init-best.patch, validated; Model/ES.lean simplexInit is the repaired init -- simplexInit_honest, simplex_value_is_f_run hold without hypothesis -- and simplexInitMagic the pinned one, with simplexInitMagic_eq_of_small and the witness simplexInitMagic_not_honest_witness); F14 VD-CMA learning rates negative for n<5 and zero for n=5 (patch C11-F14-vdcma-correction-floor.patch, validated) and its consequence F12 (VD-CMA turns NaN after stagnating), "
        "F13 the CMA covariance matrix drifts away from symmetry (oracle tolerance 1e-9*sqrt(CiiCjj)+1e-16), F15 CMA with a feasibility box whose optimum lies on the boundary and a large population loses positive definiteness of C and the eigensolver throws (thorough tier; corpus f15). CMA traces do not start at |x0| ~ 1e6 (cancellation in x - mean exceeds the 1e-9 tolerance of the C comparison; such starts are kept in the run cases). Observations (not violations of C11 as stated): CMA/CMSA rank offspring by unpenalizedFitness, so the PenalizingEvaluator penalty never influences selection; LMCMA.h does not compile and LMCMA::step always throws; CMAChromosome::roundUpdate deviates from the paper by a factor c_cov.",
   technique="Lean 4 proofs (induction over generations and over the columns of the Cholesky factor, stable-sort congruence, Mathlib PosSemidef) about regenerated formulas and hand-written models + differential correspondence and property oracle on the C++ (ASan/UBSan)",
@@ -617,6 +617,10 @@ def classify(ops, res):
                 ("reported-point-has-wrong-dimension" in tags or "value-not-f-of-closest-feasible-point" in tags)
         if f16:
             return ("F16:simplex-init-magic-best-value", f"SimplexDownhill::init keeps m_best at (stale point, 1e100) when every vertex value is >= 1e100 ({res.oracle[0][-200:]}); ops {ops}")
+    if info["opt"] == "cma" and info["kind"] == "run" and not info["box"] and info["lambda"] >= 30 and info["lambda"] >= 10 * max(info["n"], 1) and info["steps"] >= 60 \
+            and tags and set(tags) <= {"step-size-not-positive", "exception"} and ("exception" not in tags or any("eigendecomposition" in l for l in res.oracle)) \
+            and not any(k in info["options"] for k in ("lb", "mid", "cov0")):
+        return ("F17:cma-covariance-collapses-after-exact-convergence", f"CMA (population >= 10 n) keeps running after exact convergence: C collapses, the stability clamp divides by 0 (sigma = inf), eigensolver throws ({res.oracle[0][-160:]}); ops {ops}")
     if info["opt"] == "cma" and "covariance-not-symmetric" in tags:
         return ("F13:cma-covariance-asymmetry", f"CMA covariance matrix is not symmetric beyond rounding ({res.oracle[0][-150:]}); ops {ops}")
     if tags:
